@@ -171,6 +171,7 @@ func runC05(r *Run, verifDir string) {
 	// ---------------- V3 version propagation
 	r.Rule("C05.V3", "version state is shared parent->nested coder, created only in newEncoder/newDecoder, written only by setVersion/Clear", 6)
 	c05Propagation(r)
+	r.Import("C05.V6", "a typed decode that failed is never retried into the generic container (a raw Value carries no version ranges and is written ungated)", 54, "C02", "C02.R8", func(k string) bool { return strings.HasPrefix(k, "kmip.") || strings.HasPrefix(k, "payloads.") })
 
 	// ---------------- V4 header first
 	r.Rule("C05.V4", "the set-version field is the first coded field of its header, and the header is the first field of each root message", 4)
